@@ -343,8 +343,14 @@ func c02R5(c *core.Ctx) {
 		c.Fail(rule, fnName(f)+":filter", pubs[0].Pos(), "Publish is not given a filter closure (self-exclusion impossible)")
 		return
 	}
-	cf := mc.Fn.(*ssa.Function)
-	// closure: return s.ID() != *exclude
+	cf, off := eng.FuncValue(args[2])
+	if cf == nil || cf.Blocks == nil || len(cf.Params) < off+1 {
+		c.Fail(rule, fnName(f)+":filter", pubs[0].Pos(), "the Publish filter is not a closure literal, function or method value")
+		return
+	}
+	subP := ssa.Value(cf.Params[off])
+	// filter: return s.ID() != <exclude>, where <exclude> is a captured variable (closure
+	// literal) or the bound receiver (method value), possibly converted
 	shape := false
 	var excl ssa.Value
 	eng.Instrs(cf, func(in ssa.Instruction) {
@@ -355,17 +361,26 @@ func c02R5(c *core.Ctx) {
 		a := eng.Normalize(ret.Results[0])
 		if a.Op == token.EQL && a.Neg {
 			for _, pr := range [][2]ssa.Value{{a.X, a.Y}, {a.Y, a.X}} {
-				if isCallOn(pr[0], idSubscriberID, func(r ssa.Value) bool { return r == cf.Params[0] }) {
-					if u, ok := pr[1].(*ssa.UnOp); ok {
-						if fv, ok := u.X.(*ssa.FreeVar); ok {
-							for i, x := range cf.FreeVars {
-								if x == fv {
-									excl = mc.Bindings[i]
-									shape = true
-								}
+				if !isCallOn(pr[0], idSubscriberID, func(r ssa.Value) bool { return r == subP }) {
+					continue
+				}
+				other := eng.StripConv(pr[1])
+				if ct, isCT := other.(*ssa.ChangeType); isCT {
+					other = ct.X
+				}
+				if u, ok := other.(*ssa.UnOp); ok {
+					if fv, ok := u.X.(*ssa.FreeVar); ok {
+						for i, x := range cf.FreeVars {
+							if x == fv && i < len(mc.Bindings) {
+								excl = mc.Bindings[i]
+								shape = true
 							}
 						}
 					}
+				}
+				if off == 1 && other == ssa.Value(cf.Params[0]) && len(mc.Bindings) == 1 {
+					excl = mc.Bindings[0] // the bound receiver
+					shape = true
 				}
 			}
 		}
@@ -376,23 +391,56 @@ func c02R5(c *core.Ctx) {
 	}
 	okAssign := false
 	bad := false
-	if refs := excl.Referrers(); refs != nil {
-		for _, r := range *refs {
-			st, ok := r.(*ssa.Store)
-			if !ok || st.Addr != excl {
+	exPred := eng.CallPred("channel.Exclude()", idChannelExclude, -1, true, nil)
+	isPubID := func(v ssa.Value) bool {
+		return isCallOn(v, idSubscriberID, func(r ssa.Value) bool { return eng.SameValue(r, param(f, 1)) })
+	}
+	isEmptyStr := func(v ssa.Value) bool {
+		k, isC := v.(*ssa.Const)
+		return isC && k.Value != nil && k.Value.ExactString() == `""`
+	}
+	if _, isAlloc := excl.(*ssa.Alloc); isAlloc {
+		if refs := excl.Referrers(); refs != nil {
+			for _, r := range *refs {
+				st, ok := r.(*ssa.Store)
+				if !ok || st.Addr != excl {
+					continue
+				}
+				if isEmptyStr(st.Val) {
+					continue
+				}
+				g := eng.Guarded(st, exPred)
+				if g.Guarded && g.Edges > 0 && isPubID(st.Val) {
+					okAssign = true
+				} else {
+					bad = true
+				}
+			}
+		}
+	} else {
+		// a plain local (not captured): the value is "" or the publisher's id computed under Exclude()
+		v := eng.StripConv(excl)
+		if ct, isCT := v.(*ssa.ChangeType); isCT {
+			v = eng.StripConv(ct.X)
+		}
+		var edges []ssa.Value
+		if phi, isPhi := v.(*ssa.Phi); isPhi {
+			edges = phi.Edges
+		} else {
+			edges = []ssa.Value{v}
+		}
+		for _, e := range edges {
+			if isEmptyStr(e) {
 				continue
 			}
-			if k, isC := st.Val.(*ssa.Const); isC && k.Value != nil && k.Value.ExactString() == `""` {
-				continue
+			call, isCall := e.(*ssa.Call)
+			if isCall && isPubID(e) {
+				if g := eng.Guarded(call, exPred); g.Guarded && g.Edges > 0 {
+					okAssign = true
+					continue
+				}
 			}
-			pred := eng.CallPred("channel.Exclude()", idChannelExclude, -1, true, nil)
-			g := eng.Guarded(st, pred)
-			isPubID := isCallOn(st.Val, idSubscriberID, func(r ssa.Value) bool { return eng.SameValue(r, param(f, 1)) })
-			if g.Guarded && g.Edges > 0 && isPubID {
-				okAssign = true
-			} else {
-				bad = true
-			}
+			bad = true
 		}
 	}
 	c.Check(okAssign && !bad, rule, fnName(f)+":exclude set only under me=0", mc.Pos(), "`exclude` is the publisher's id exactly under channel.Exclude()", "`exclude` is assigned outside channel.Exclude()=true or not with the publisher's id")
